@@ -178,23 +178,31 @@ pub fn packet_write(msg: &Packet, w: &mut Cursor) -> (r: Result<(), Error>)
         r is Err ==> !r->Err_0.is_framing(),
 { unimplemented!() }
 
-// cursor over the frame handed to the parser (std::io::Cursor<&BytesMut>)
-pub struct FrameCursor<'a> {
-    pub data: &'a BytesMut,
+// cursor handed to the parser (std::io::Cursor over the frame, or over a slice of the buffer):
+// only the bytes it makes visible matter
+pub struct FrameCursor {
+    pub view: Ghost<Seq<u8>>,
 }
 
-impl<'a> FrameCursor<'a> {
-    pub fn new(d: &'a BytesMut) -> (c: FrameCursor<'a>)
-        ensures c.data@ == d@
-    { FrameCursor { data: d } }
+impl FrameCursor {
+    // std::io::Cursor::new(&data)
+    pub fn new(d: &BytesMut) -> (c: FrameCursor)
+        ensures c.view@ == d@
+    { FrameCursor { view: Ghost(d@) } }
+
+    // std::io::Cursor::new(&buf[from..to]) - slicing panics when out of range
+    pub fn over(d: &BytesMut, from: usize, to: usize) -> (c: FrameCursor)
+        requires from <= to, to <= d@.len()
+        ensures c.view@ == d@.subrange(from as int, to as int)
+    { FrameCursor { view: Ghost(d@.subrange(from as int, to as int)) } }
 }
 
 // Packet::read(&mut cursor): sees exactly the cursor's bytes
 #[verifier::external_body]
-pub fn packet_read<'a>(c: &mut FrameCursor<'a>) -> (r: Result<Packet, Error>)
+pub fn packet_read(c: &mut FrameCursor) -> (r: Result<Packet, Error>)
     ensures
-        r == parse_frame(old(c).data@),
-        final(c).data@ == old(c).data@,
+        r == parse_frame(old(c).view@),
+        final(c).view@ == old(c).view@,
         r is Err ==> !r->Err_0.is_framing(),
 { unimplemented!() }
 
@@ -319,7 +327,7 @@ impl Codec {
 //@@ anchor: pub fn decode(&self, src: &mut BytesMut) -> Result<Option<Packet>>
 //@@ ret: r
 //@@ rewrite: Result<Option<Packet>> => Result<Option<Packet>, Error>
-//@@ rewrite: std::io::Cursor::new\(&data\) => FrameCursor::new(&data)
+//@@ rewrite-any: std::io::Cursor::new\(&data\) => FrameCursor::new(&data) || std::io::Cursor::new\(&src\[(\w+)\.\.(\w+)\]\) => FrameCursor::over(src, \1, \2) || std::io::Cursor::new\(&src\[(\w+)\.\.\]\) => FrameCursor::over(src, \1, src.len())
 //@@ rewrite: Packet::read\(&mut cursor\) => packet_read(&mut cursor)
 //@@ contract:
 //@@|        ensures
@@ -328,19 +336,16 @@ impl Codec {
 //@@|                && (old(src)@.len() < 4 || old(src)@.len() < announced(self.spec_mode(), old(src)@[0])),
 //@@|            // a packet: exactly the announced frame left the front, parser saw frame[1..n] only
 //@@|            r matches Ok(Some(p)) ==> decoded_frame(self.spec_mode(), old(src)@, final(src)@)
-//@@|                && parse_frame(frame_body(self.spec_mode(), old(src)@)) == Ok::<Packet, Error>(p),
+//@@|                && (exists|vis: Seq<u8>| #[trigger] parse_frame(vis) == Ok::<Packet, Error>(p)
+//@@|                    && vis =~= frame_body(self.spec_mode(), old(src)@)),
 //@@|            // framing error: impossible announced length, buffer untouched
 //@@|            r matches Err(e) ==> e.is_framing() ==> final(src)@ == old(src)@ && old(src)@.len() >= 4
 //@@|                && (announced(self.spec_mode(), old(src)@[0]) > spec_max(self.spec_mode())
 //@@|                    || announced(self.spec_mode(), old(src)@[0]) < 4),
 //@@|            // decode error: the frame is gone all the same, successors undisturbed
 //@@|            r matches Err(e) ==> !e.is_framing() ==> decoded_frame(self.spec_mode(), old(src)@, final(src)@)
-//@@|                && parse_frame(frame_body(self.spec_mode(), old(src)@)) == Err::<Packet, Error>(e),
-//@@ proof-after: data.advance(1);
-//@@|        proof {
-//@@|            assert(data@ =~= frame_body(self.spec_mode(), old(src)@));
-//@@|            assert(src@ =~= old(src)@.subrange(n as int, old(src)@.len() as int));
-//@@|        }
+//@@|                && (exists|vis: Seq<u8>| #[trigger] parse_frame(vis) == Err::<Packet, Error>(e)
+//@@|                    && vis =~= frame_body(self.spec_mode(), old(src)@)),
 //@@ END
 }
 
@@ -349,7 +354,7 @@ pub open spec fn decoded_frame(m: Mode, before: Seq<u8>, after: Seq<u8>) -> bool
     &&& before.len() >= 4
     &&& 4 <= announced(m, before[0]) <= before.len()
     &&& announced(m, before[0]) <= spec_max(m)
-    &&& after == before.subrange(announced(m, before[0]), before.len() as int)
+    &&& after =~= before.subrange(announced(m, before[0]), before.len() as int)
 }
 
 // the only bytes the parser is shown: the frame without its size byte
